@@ -205,7 +205,25 @@ RULE = (
     "1e-6 .. 1e9 bohr apart with the default radial grids (structure, aim weights finite in [0, 1], 1 % Gaussian integral on 'fine': measured "
     "envelope 0.4 %), radial grids next to the singular end of BeckeRTransform / HandyModRTransform (radii to 4e3 bohr) and a 1e-9 .. 1e-6 bohr "
     "interval through every route; class 20: atoms of pairwise different sizes, 1 / 2 / 4 / 5 query points, molecules with 1 .. 8 atoms in the "
-    "small-array and fan-out correspondence"
+    "small-array and fan-out correspondence. "
+    "ROUND 5 (harness/props/c07_r5.py): class 21 — grids of 1025 / 4097 / 20001 / 31234 / 65537 points (two of them per quick run; 2^19 + 1 and "
+    "2^20 + 7 in the thorough tier) split over 1-7 LocalGrid atoms of unequal sizes, 17-65 atoms of 1-3 points, Becke weights on ~5000 points of "
+    "3 atoms and on 11-17 atoms of 1-5 points (chunks of one or two points), interpolate at 1025 / 1031 (thorough 4097, 20001) evaluation points: "
+    "index table, concatenation, per-element probes around every boundary of the index table and of 2^k / 10^k, aim weights atom by atom on "
+    "pristine copies, integrate against fsum and against the atomic integrals, integrate(f, g), local grid by brute force, interpolation against "
+    "the two parts of a split and against single-point evaluation; class 22 — reversed / shuffled radial grids and the ones MultiExpRTransform / "
+    "BeckeRTransform make of Gauss-Legendre / Gauss-Chebyshev nodes (in the order the library produces and sorted) through every route: hand-built "
+    "equality, and (rotate=0) the same set of (point, atomic weight, aim weight) and the same integral as with ascending radial points; permuted "
+    "atoms (per-atom grids, aim weights, integral permuted); shuffled / reversed / sorted evaluation points of the interpolant; class 23 — atcoords, "
+    "radius, aim weights, function values, evaluation points and local-grid centres given directly as longdouble / float32 / float16 / int64 / "
+    "int32 arrays: against the float64 answer, argument unchanged, second call with the same object equal to the first (consistent rejections "
+    "recorded in coverage.input_kinds); class 25 — atcoords / atnums / radius arrays, sector lists, preset list, radial grids (list, dict, single) "
+    "changed in place between calls of the five constructor routes, the aim array, function values, evaluation points, centre array and the list "
+    "of atomic grids changed in place between MolGrid(...) / integrate / interpolate / get_localgrid calls: every answer against the call on "
+    "fresh copies of the new contents; classes 26 and 24 — two grids differing in one hidden dependency (store, radial grid, a node at r = 0, "
+    "Becke order, array vs Becke, degree, radial grid under from_preset) alive together in both orders: answers (arrays, integral, per-atom "
+    "grids, local grid, interpolation) against those taken before the other existed, a rebuilt twin, the opposite order and the instance alone "
+    "in a fresh interpreter; default radial grids of elements with different numbers of points requested in both orders against the closed form"
 )
 TRUSTED_BASE = [
     "Lean 4.33 kernel; axioms propext, Classical.choice, Quot.sound only (audited per theorem)",
@@ -1946,7 +1964,7 @@ def oracle_at(ctx: Ctx, failure):
 
 def oracle(ctx: Ctx, budget: str):
     mg, ag, bg, bk, od = _mods()
-    from . import c07_ext, c07_r4
+    from . import c07_ext, c07_r4, c07_r5
     parts = [
         ("structure", lambda: _oracle_structure(ctx, budget, mg, ag, bk, od)),
         ("fanout", lambda: _oracle_fanout(ctx, budget, mg, ag, bk, od)),
@@ -1958,6 +1976,7 @@ def oracle(ctx: Ctx, budget: str):
     ]
     parts += [("r3:" + nm, (lambda fn=fn: fn(ctx, budget))) for nm, fn in c07_ext.ORACLE_PARTS]
     parts += [("r4:" + nm, (lambda fn=fn: fn(ctx, budget))) for nm, fn in c07_r4.ORACLE_PARTS]
+    parts += [("r5:" + nm, (lambda fn=fn: fn(ctx, budget))) for nm, fn in c07_r5.ORACLE_PARTS]
     parts.append(("end-to-end", lambda: _oracle_end_to_end(ctx, budget, mg, ag)))
     for name, fn in parts:
         _part(ctx, "oracle", name, fn)
